@@ -24,3 +24,9 @@ CONFIG = {
     "assumptions": ["texts with duplicate keys, invalid UTF-8 or lone surrogates are outside C01's quantifier (compared impl vs model only); "
                     "the proofs need only 'no lone surrogate escape' (V.C01.canonical_eq_spec_general): a lone \\uD800 is dropped by CompactJSON but decoded as U+FFFD by gjson"],
 }
+# statement-by-statement translation of small pure Go functions (tools/extract/trans.go -> lean/VGen/TransJson.lean) and the
+# theorems that the translated definitions equal the model's, for all inputs (lean/VProps/TransJson.lean)
+CONFIG["lean"] = list(CONFIG["lean"]) + ["VProps.TransJson"]
+CONFIG["sources"] = list(CONFIG["sources"]) + ['VProps/TransJson.lean', 'VProofs/TransHex.lean', 'VProofs/TransHex/Defs.lean', 'VModel/GoSem.lean']
+CONFIG["theorems"] = list(CONFIG["theorems"]) + ['V.Trans.Json.isNegativeZeroLiteral_eq_model', 'V.Trans.Json.readHexDigits_correct', 'V.Trans.Json.readHexDigits_total']
+CONFIG["trusted"] = list(CONFIG["trusted"]) + ["tools/extract/trans.go: the Go-to-Lean translation of the whitelisted functions and the Go semantics of lean/VModel/GoSem.lean (DESIGN.md §14)"]
